@@ -95,9 +95,9 @@ def id_of(o):
     return getattr(type(o), "_id", None)
 
 
-def canon(v, seen=None):
-    """structural canonical form; container identity numbered in traversal order so that sharing
-    is part of the form"""
+def canon_shared(v, seen=None):
+    """structural canonical form WITH sharing: container identity numbered in traversal order (kept for reference;
+    the oracles compare by value, see vcanon)"""
     if seen is None:
         seen = {}
     if v is None:
@@ -119,20 +119,67 @@ def canon(v, seen=None):
     if id(v) in seen:
         return ("ref", seen[id(v)])
     if isinstance(v, tuple):
-        return ("tuple", tuple(canon(x, seen) for x in v))
+        return ("tuple", tuple(canon_shared(x, seen) for x in v))
     if isinstance(v, frozenset):
-        return ("frozenset", tuple(sorted(repr(canon(x, {})) for x in v)))
+        return ("frozenset", tuple(sorted(repr(canon_shared(x, {})) for x in v)))
     seen[id(v)] = len(seen)
     me = seen[id(v)]
     if isinstance(v, list):
-        return ("list", me, tuple(canon(x, seen) for x in v))
+        return ("list", me, tuple(canon_shared(x, seen) for x in v))
     if isinstance(v, dict):
-        return ("dict", me, tuple((canon(k, seen), canon(x, seen)) for k, x in v.items()))
+        return ("dict", me, tuple((canon_shared(k, seen), canon_shared(x, seen)) for k, x in v.items()))
     if isinstance(v, set):
-        return ("set", me, tuple(sorted(repr(canon(x, {})) for x in v)))
+        return ("set", me, tuple(sorted(repr(canon_shared(x, {})) for x in v)))
     if hasattr(type(v), "_id"):
-        return ("obj", me, type(v)._id, canon(v._args, seen), canon(v._kw, seen), canon(v._state, seen))
+        return ("obj", me, type(v)._id, canon_shared(v._args, seen), canon_shared(v._kw, seen), canon_shared(v._state, seen))
     return ("other", type(v).__name__)
+
+
+def vcanon(v, _active=None):
+    """canonical form by VALUE only: a shared sub-object is expanded at every occurrence (two references to one list and
+    two equal lists compare equal); only cycles are cut"""
+    if _active is None:
+        _active = []
+    if v is None:
+        return ("NoneType", None)
+    if isinstance(v, bool):
+        return ("bool", v)
+    if isinstance(v, int):
+        return ("int", v)
+    if isinstance(v, float):
+        return ("float", repr(v))
+    if isinstance(v, str):
+        return ("str", v)
+    if isinstance(v, bytes):
+        return ("bytes", v)
+    if isinstance(v, bytearray):
+        return ("bytearray", bytes(v))
+    if isinstance(v, type) and hasattr(v, "_id"):
+        return ("global", v._id)
+    if any(v is a for a in _active):
+        return ("cycle",)
+    _active.append(v)
+    try:
+        if isinstance(v, tuple):
+            return ("tuple", tuple(vcanon(x, _active) for x in v))
+        if isinstance(v, frozenset):
+            return ("frozenset", tuple(sorted(repr(vcanon(x, _active)) for x in v)))
+        if isinstance(v, list):
+            return ("list", tuple(vcanon(x, _active) for x in v))
+        if isinstance(v, dict):
+            return ("dict", tuple((vcanon(k, _active), vcanon(x, _active)) for k, x in v.items()))
+        if isinstance(v, set):
+            return ("set", tuple(sorted(repr(vcanon(x, _active)) for x in v)))
+        if hasattr(type(v), "_id"):
+            return ("obj", type(v)._id, vcanon(v._args, _active), vcanon(v._kw, _active), vcanon(v._state, _active))
+        return ("other", type(v).__name__)
+    finally:
+        _active.pop()
+
+
+def canon(v):
+    """the canonical form used by every oracle: by value (see vcanon)"""
+    return vcanon(v)
 
 
 def strip_ids(c):
